@@ -10,9 +10,11 @@ goes through
   wrapped by `newErrorResponsef` with the call site's status, `*ErrorResponse` values pass through
   **as the same object**,
 * the deferred `recover()` of `receive` (handler.go): a panic inside the closure becomes a 500
-  `ErrorResponse` carrying the panic value as message,
-* the tail of `ServeHTTP` (handler.go): error header, status and message defaulting **in place**,
-  marshalling of the body — all of it outside any `recover`,
+  `ErrorResponse` carrying the panic value as message; a nil result without an error (a typed nil
+  that `ServeHTTP` could only marshal by dereferencing it) is turned into a 500 there too, and by
+  the action closure for an action's nil results,
+* the tail of `ServeHTTP` (handler.go): error header, status defaulted once (500), message
+  defaulted in a **copy** of the error response, marshalling of the body,
 * the client (`restli.Client.Do` → `IsErrorResponse`, errors.go): `*restli.Error` when the error
   header is set (status defaulted from the HTTP status), `*UnexpectedStatusCodeError` for a non-2xx
   without it, a transport error when the connection was dropped.
@@ -105,8 +107,6 @@ def presetStatus (C : Consts) (k : Kind) : Nat :=
 inductive RespBody where
   | none
   | value
-  /-- a non-nil interface holding a nil pointer: `MarshalRestLi` on it dereferences nil -/
-  | typedNil
 deriving DecidableEq, Repr
 
 /-- an error as it leaves `receive`; `own` = it is the very object the implementation returned -/
@@ -123,6 +123,11 @@ deriving DecidableEq, Repr
 
 /-- the status an ordinary error is wrapped with (`newErrorResponsef(err, status, …)`) -/
 def wrapStatus (C : Consts) (k : Kind) : Nat := C.stImplFailed k.method
+
+/-- the status of the error response a nil result without an error is turned into
+(`receive`; for an action's results: the closure of `registerAction`) -/
+def nilResultStatus (C : Consts) (k : Kind) : Nat :=
+  if k = .actionWithResults then C.stNilActionResult else C.stNilResult
 
 /-- identity of "the remaining fields" of error responses the library builds itself -/
 def libRest : Nat := 0
@@ -146,7 +151,8 @@ def receiveImpl (C : Consts) (k : Kind) : ImplOutcome → Received
     | .derefInWrapper =>                                            -- `createdEntity.Id` on nil: panic inside the closure, recovered
       .err ⟨⟨some C.recoverStatus, some "nil pointer dereference", libRest⟩, false⟩
     | .sliceWrapped => .ok .value (presetStatus C k)               -- a nil slice is an empty list
-    | .marshalledBody => .ok .typedNil (presetStatus C k)
+    | .marshalledBody =>                                            -- `isNilPointer(responseBody)` / `isNilPointer(results)`
+      .err ⟨⟨some (nilResultStatus C k), some "nil result", libRest⟩, false⟩
   | .statusOverride n =>
     match k.shape with
     | .errorOnly => .ok .none n
@@ -173,18 +179,16 @@ deriving DecidableEq, Repr
 /-- the tail of `ServeHTTP` (no filters). Returns the wire outcome and, when the error was the
 implementation's own object, what that object looks like afterwards. -/
 def respondTail (C : Consts) (statusText : Nat → String) : Received → Wire × Option ErrResp
-  | .ok .typedNil _ => (.connectionDropped, none)                 -- `responseBody.MarshalRestLi(w)` on a nil receiver
   | .ok .none st => (.response st false .empty, none)
   | .ok .value st => (.response st false .value, none)
   | .err ⟨e, own⟩ =>
-    let after (e' : ErrResp) : Option ErrResp := if own then some e' else none
-    match e.status, e.message with
-    | none, none => (.connectionDropped, after e)                  -- `*errRes.Status` with a nil Status
-    | none, some _ => (.response C.srvNilStatus true (.error e), after e)
-    | some st, none =>
-      let e' := { e with message := some (statusText st) }         -- `errRes.Message = StringPointer(…)`: in place
-      (.response st true (.error e'), after e')
-    | some st, some _ => (.response st true (.error e), after e)
+    -- `ctx.ResponseStatus = *errRes.Status` or the 500 default, once
+    let st := e.status.getD C.srvNilStatus
+    -- `withMessage := *errRes; withMessage.Message = StringPointer(http.StatusText(ctx.ResponseStatus))`: a copy
+    let body := match e.message with
+      | some _ => e
+      | none => { e with message := some (statusText st) }
+    (.response st true (.error body), if own then some e else none)
 
 /-- request routed, filters passed, everything decoded: implementation called with outcome `o` -/
 def serveOutcome (C : Consts) (statusText : Nat → String) (k : Kind) (o : ImplOutcome) : Wire × Option ErrResp :=
